@@ -39,17 +39,24 @@ func (c *Config) CountField(name string, opts ...Option) (int, error) {
 		return len(c.fields.array()) + len(c.fields.dict()), nil
 	}
 
-	if v, ok := c.fields.get(name); ok {
-		n, err := v.Len(makeOptions(opts))
-		if err != nil {
-			if _, ok := err.(Error); !ok {
-				err = raisePathErr(err, v.meta(), "", c.PathOf(name, "."))
-			}
-			return n, err
-		}
-		return n, nil
+	// name is a path like the names given to the getters: it is split at the
+	// path separator and its segments index lists under the same rules
+	// (MaxIdx, EnableNumKeys)
+	o := makeOptions(opts)
+	v, err := c.getField(name, -1, o)
+	if err != nil {
+		return -1, err
 	}
-	return -1, raiseMissing(c, name)
+
+	n, lenErr := v.Len(o)
+	if lenErr != nil {
+		if _, ok := lenErr.(Error); !ok {
+			ctx := v.Context()
+			lenErr = raisePathErr(lenErr, v.meta(), "", ctx.path("."))
+		}
+		return n, lenErr
+	}
+	return n, nil
 }
 
 // Bool reads a boolean setting returning an error if the setting has no
